@@ -134,7 +134,8 @@ WeightIsMultiplicity == Done => SameSeq(Want(Expand(tab), win, ord), Want(tab, w
 SwapXY(pq) == [b \in 1..Len(pq) |-> <<pq[b][2], pq[b][1], pq[b][3]>>]
 StarOf(t) == [f |-> <<t.f[1], t.f[1]>>, w |-> <<1, 1>>, p |-> <<t.p[1], SwapXY(t.p[1])>>]
 ProjectedReducible ==
-  (Done /\ Projected(tab) /\ NQ(tab) = 1 /\ tab.w[1] = 2 /\ NC(tab) = 3) =>
+  (Done /\ Projected(tab) /\ NQ(tab) = 1 /\ tab.w[1] = 2 /\ NC(tab) = 3
+        /\ Want(tab, win, ord)[1][2] # 0 /\ Want(StarOf(tab), win, ord)[1][2] # 0) =>
      SameSeq(Want(StarOf(tab), win, ord), Want(tab, win, ord))
 
 Emit == Done => PrintT(ToString(<<"MOM", tab, ord, win, result>>))
